@@ -168,7 +168,37 @@ func limitTests(fn *ssa.Function, fields map[string]bool) []limitTest {
 			continue
 		}
 		f := CondFact(iff.Cond, true).Canon()
-		if f.Y == nil || (f.Op != token.LSS && f.Op != token.LEQ) {
+		if f.Y == nil {
+			// the test is made by a boolean helper of the package (p.chosenLimitReached(n)): the comparison it implies
+			sub, pol := BoolSubject(iff.Cond)
+			if cl, isCall := sub.(*ssa.Call); isCall && cl.Call.StaticCallee() != nil && PkgOf(cl.Call.StaticCallee()) == PkgOf(fn) {
+				for _, val := range []bool{true, false} {
+					su := b.Succs[0]
+					if val != pol {
+						su = b.Succs[1]
+					}
+					for _, g := range PredicateCmpFacts(cl, val) {
+						g = g.Canon()
+						if g.Op != token.LSS && g.Op != token.LEQ {
+							continue
+						}
+						gx, _ := FieldOf(Strip(g.X))
+						gy, _ := FieldOf(Strip(g.Y))
+						other := b.Succs[0]
+						if su == other {
+							other = b.Succs[1]
+						}
+						if _, isC := ConstInt(g.Y); gx != nil && fields[gx.Name()] && !isC {
+							out = append(out, limitTest{If: iff, Field: gx.Name(), Counter: g.Y, Exact: g.Op == token.LEQ, ReachedSucc: su})
+						} else if _, isC := ConstInt(g.X); gy != nil && fields[gy.Name()] && !isC {
+							out = append(out, limitTest{If: iff, Field: gy.Name(), Counter: g.X, Exact: g.Op == token.LSS, ReachedSucc: other})
+						}
+					}
+				}
+			}
+			continue
+		}
+		if f.Op != token.LSS && f.Op != token.LEQ {
 			continue
 		}
 		fx, _ := FieldOf(Strip(f.X))
